@@ -150,9 +150,18 @@ def capCands (w : Bool) : List Pc := if w then [0, 7, 8, 9, 10, 11, 12] else [0,
 def castleCands (Q : Pos) (m : Mv) : List UInt8 :=
   ((List.range 16).map UInt8.ofNat).filter fun c => c &&& castleKeep m.f &&& castleKeep m.t == Q.castle
 
-/-- candidate e.p. squares of the predecessor (`w` = side to move there) -/
+/-- necessary condition for `e` to have been the predecessor's e.p. square, read off `Q`: the double-pushed pawn in
+    front of `e` is still there unless the move captured it (normally, or en passant); `e` and the square behind it
+    are still empty unless the move went there -/
+def epPlausible (Q : Pos) (m : Mv) (e : Sq) : Bool :=
+  let i := if Q.wtm then e.val + 8 else e.val - 8
+  let j := if Q.wtm then e.val - 8 else e.val + 8
+  (Q.b.getD i 0 == (if Q.wtm then WPAWN else BPAWN) || m.t.val == i || m.t == e) &&
+  (Q.b.getD e.val 0 == 0 || m.t == e) && (Q.b.getD j 0 == 0 || m.t.val == j)
+
+/-- candidate e.p. squares of the predecessor -/
 def epCands (all : Bool) (Q : Pos) (m : Mv) : List (Option Sq) :=
-  if all then none :: (allSq.filter fun e => e.y == (if Q.wtm then 2 else 5)).map some
+  if all then none :: (allSq.filter fun e => e.y == (if Q.wtm then 2 else 5) && epPlausible Q m e).map some
   else if kind (Q.at m.t) == 6 then [none, some m.t] else [none]
 
 def cands (all : Bool) (Q : Pos) : List UnMv :=
